@@ -143,6 +143,89 @@ def confine_cases():
     return cases
 
 
+def mcp_serve_killed(ctx, rng):
+    import signal
+    import subprocess
+    import select
+    hk = os.path.join(ctx.scratch, "hk-mcp")
+    rc, log = C.run(["go", "build", "-o", hk, "./cmd/hookaido"], cwd=C.REPO, env=C.GOENV, timeout=1200)
+    if rc != 0:
+        raise RuntimeError("building cmd/hookaido failed: " + log[-1500:])
+    d = os.path.join(ctx.scratch, "mcpserve")
+    os.makedirs(d, exist_ok=True)
+    cfg = os.path.join(d, "Hookaidofile")
+    open(cfg, "w").write('ingress {\n  listen ":18080"\n}\npull_api {\n  listen ":19443"\n  auth token "raw:t"\n}\n"/hooks" {\n  pull { path /pull/h }\n}\n')
+    stats = {"sessions": 0, "calls": 0, "records": 0}
+
+    def frame(o):
+        b = json.dumps(o).encode()
+        return b"Content-Length: %d\r\n\r\n" % len(b) + b
+
+    def read_frame(f, timeout=10.0):
+        hdr = b""
+        while not hdr.endswith(b"\r\n\r\n"):
+            r, _, _ = select.select([f], [], [], timeout)
+            if not r:
+                return None
+            ch = os.read(f.fileno(), 1)
+            if not ch:
+                return None
+            hdr += ch
+        n = int(re.search(rb"Content-Length: (\d+)", hdr).group(1))
+        body = b""
+        while len(body) < n:
+            r, _, _ = select.select([f], [], [], timeout)
+            if not r:
+                return None
+            chunk = os.read(f.fileno(), n - len(body))
+            if not chunk:
+                return None
+            body += chunk
+        return json.loads(body)
+    sessions = [("operate", ["config_apply", "messages_cancel", "dlq_delete"], signal.SIGKILL),
+                ("admin", ["messages_cancel_by_filter", "management_endpoint_delete", "messages_resume", "messages_publish"], signal.SIGTERM),
+                ("read", ["dlq_requeue", "instance_stop"], signal.SIGKILL)]
+    for role, tools, sig in sessions:
+        p = subprocess.Popen([hk, "mcp", "serve", "--config", cfg, "--db", os.path.join(d, "q-%s.db" % role), "--role", role, "--principal", "ops@example.test",
+                              "--enable-mutations"], stdin=subprocess.PIPE, stdout=subprocess.PIPE, stderr=subprocess.PIPE, cwd=d)
+        answered = []
+        try:
+            for i, t in enumerate(tools):
+                p.stdin.write(frame({"jsonrpc": "2.0", "id": i + 1, "method": "tools/call", "params": {"name": t, "arguments": {"actor": "ops@example.test"}}}))
+                p.stdin.flush()
+                resp = read_frame(p.stdout)
+                if resp is None:
+                    break
+                answered.append(t)
+        finally:
+            p.send_signal(sig)          # the host goes away; no clean end of session
+            try:
+                _, errout = p.communicate(timeout=10)
+            except subprocess.TimeoutExpired:
+                p.kill()
+                _, errout = p.communicate()
+        recs = []
+        for line in errout.decode(errors="replace").splitlines():
+            try:
+                ev = json.loads(line)
+            except ValueError:
+                continue
+            if isinstance(ev, dict) and "tool" in ev and "result" in ev:
+                recs.append(ev["tool"])
+        stats["sessions"] += 1
+        stats["calls"] += len(answered)
+        stats["records"] += len(recs)
+        if not answered:
+            raise RuntimeError("hookaido mcp serve (%s) answered nothing: %s" % (role, errout[-400:]))
+        if recs != answered:
+            C.report(ctx, "mcp-serve-killed:%s" % ("audit-records-lost" if len(recs) < len(answered) else "audit-records-differ"),
+                     "hookaido mcp serve --role %s answered the mutating calls %s and was then killed (%s): its audit stream (stderr) holds records for %s" %
+                     (role, answered, sig.name, recs),
+                     {"kind": "request", "case": {"role": role, "tools": tools, "signal": sig.name}, "observed": {"answered": answered, "audit_records": recs,
+                                                                                                              "stderr_tail": errout.decode(errors="replace")[-600:]}})
+    return stats
+
+
 def main(ctx, replay):
     rng = random.Random(ctx.seed)
     info = C.prologue(ctx)
@@ -367,6 +450,9 @@ def main(ctx, replay):
             C.report(ctx, "audit-life:%s" % ("sink-recovers" if bad_w else "healthy-sink"), "one MCP server, %d mutating calls: %s" % (len(tools), "; ".join(problems)),
                      {"kind": "request", "case": c, "observed": o})
     cov["mcp_audit_life"] = life_stats
+    # the REAL binary (`hookaido mcp serve` over stdio, built from the working tree): mutating calls are answered, then the host kills
+    # the server as MCP hosts do - every answered mutating call has its audit record on the audit stream (stderr) by then
+    cov["mcp_serve_killed"] = mcp_serve_killed(ctx, rng)
     # every call of a queue-mutation tool appends exactly one audit record, whatever it matched (real MCP server on a real database)
     from lib import c14admin
     proxy_probe = c14admin.audit_probe_proxy(ctx, info, rng, start_only=True)     # Admin-proxy mode, in the background (one call waits 5 s)
